@@ -12,3 +12,4 @@ import XPathV.Theorems.C09
 #print axioms XPathV.Theorems.C09.string_length_spec
 #print axioms XPathV.Theorems.C09.nodeset_argument_first
 #print axioms XPathV.Theorems.C09.nodeset_argument_empty
+#print axioms XPathV.Theorems.C09.substring_bounds_source_ok
